@@ -3,6 +3,7 @@ import Zstd.Proofs.HufCanon
 import Zstd.Proofs.HufDesc
 import Zstd.Proofs.HufCounts
 import Zstd.Proofs.HufRoundtripFse
+import Zstd.Proofs.HufLt128Lift
 /-
 C13 — Huffman tables are valid and literal coding round-trips for every distribution.
 
@@ -398,17 +399,10 @@ theorem fse_weights_lt_128_partial (fseEnc : List Nat → Except Fault (List Nat
     writeTable fseEnc t = .error (.assert "huff0_encoder.rs:write_table:encoded_len<128") ↔ 128 ≤ bytes.length :=
   writeTable_assert_iff fseEnc t M k hfseform bytes henc
 
-/-- Full strength of `fse_weights_lt_128` (NOT proved): every table `build_from_counts` returns has
-a weight description that `write_table`, with the real FSE coder, writes without hitting the
-assertion.  By `weights_roundtrip_fse` / `weights_roundtrip_direct` the ONLY way `write_table` can
-fail on a canonical table is `Model.Enc.fseWeights` returning 128 bytes or more, so what is missing is
-exactly a size bound for the FSE coder on the compressor's weight vectors.  A bound from per-symbol
-worst-case bit costs is not true for arbitrary weight vectors (255 weights spread evenly over 12
-values need more than 128 bytes), it depends on the shapes; evaluating the coder over the finite set
-shape × number of unused symbols × dropped weight is about 10^5 normaliser runs and does not fit the
-kernel-evaluation budget.  The correspondence run sweeps every alphabet size with every number of
-unused symbols through the real encoder instead (engine `huf`, note `fse_weights_lt_128 sweep`:
-largest payload 69 bytes). -/
+/-- Full strength of `fse_weights_lt_128`: every table `build_from_counts` returns has a weight
+description that `write_table`, with the real FSE coder (`Enc.fseWeights`: normaliser with max log 6
+and zero-bit avoidance, `write_table`, `encode_interleaved`), writes without hitting
+`assert!(encoded_len < 128)` or any other panic site.  PROVED: `fse_weights_lt_128_full_holds`. -/
 def fse_weights_lt_128_full : Prop :=
   ∀ counts t, counts.length ≤ 256 → buildFromCounts counts = .ok t →
     ∃ desc, writeTable Model.Enc.fseWeights t = .ok desc
@@ -427,6 +421,47 @@ theorem fse_weights_lt_128_canon_partial {t : EncTable} {wd : List Nat} {m : Nat
     by_cases hs : bytes.length < 128
     · exact Or.inl ⟨_, (h2 hs).1⟩
     · exact Or.inr ⟨bytes, h1, by omega, h3 (by omega)⟩
+
+/-- **`write_table` is TOTAL on the compressor's tables** (`fse_weights_lt_128`, full): for every
+histogram with at most 256 entries for which `build_from_counts` returns a table, `write_table` with
+the real FSE coder returns a description.  Proof (`Proofs/HufLt128*.lean`):
+(1) analytic size bound — every step of `encode_interleaved` for a symbol `x` writes the bits of a
+state of `x`, at most `AL − ⌊log₂ p_x⌋` by the closed form of the table (C12 `fse_dec_table_char`), then
+`2·AL` bits of final states and at most 8 bits of end mark; the table description takes at most
+`4 + (AL+3)·#symbols + 7` bits; so `8·|fseWeights ws| ≤ boundOf (histogram ws)`, a function of the
+NORMALISED DISTRIBUTION only (`fseWeights_size`);
+(2) the weights of a compressor table are `shape n` spread over the used symbols plus `z` zeros, and
+the transmitted vector drops one of them (`scatter_count`, `histogram_eq_trim`);
+(3) finite table, evaluated by the kernel in 91 generated modules (`tools/gen_huf_lt128.py`): for every
+`n = 2..256`, every `z = 0..256−n` and every value of the dropped weight (118 664 runs of the
+13-symbol normaliser, no encoder run) the bound is at most 1023 bits (the largest is 632). -/
+theorem write_table_total_on_compressor_tables (counts : List Nat) (t : EncTable) (hlen : counts.length ≤ 256)
+    (hb : buildFromCounts counts = .ok t) : ∃ desc, writeTable Model.Enc.fseWeights t = .ok desc :=
+  writeTable_total counts t hlen hb
+
+theorem fse_weights_lt_128_full_holds : fse_weights_lt_128_full :=
+  fun counts t hlen hb => writeTable_total counts t hlen hb
+
+/-- … and what it writes is read back: for a histogram as `build_from_data` makes it (last entry not
+zero, 2 … 256 non-zero entries) `write_table` returns a description from which the decoder — any table
+state, any following bytes — recovers exactly the transmitted weights, consuming exactly the
+description (direct or FSE-compressed form) -/
+theorem write_table_total_and_read_back (counts : List Nat) (hlen : counts.length ≤ 256)
+    (hn : 2 ≤ counts.length - ((rankOrder counts).filter (·.2)).length)
+    (hlast : ∀ c, counts.getLast? = some c → c ≠ 0) :
+    ∃ t wd m desc, buildFromCounts counts = .ok t ∧ CanonTable t wd m ∧
+      writeTable Model.Enc.fseWeights t = .ok desc ∧ DescReads desc wd.dropLast := by
+  obtain ⟨t, wd, m, hb, c, _, _⟩ := compressor_table_canon counts hlen hn hlast
+  obtain ⟨desc, hdesc⟩ := writeTable_total counts t hlen hb
+  refine ⟨t, wd, m, desc, hb, c, hdesc, ?_⟩
+  by_cases hform : wd.length - 1 ≤ 16
+  · obtain ⟨desc', h1, h2⟩ := descReads_direct Model.Enc.fseWeights c hform
+    rw [hdesc] at h1; simp only [Except.ok.injEq] at h1; subst h1; exact h2
+  · obtain ⟨bytes, _, h2, h3⟩ := descReads_fse c (by omega)
+    by_cases hs : bytes.length < 128
+    · obtain ⟨h1, h2'⟩ := h2 hs
+      rw [hdesc] at h1; simp only [Except.ok.injEq] at h1; subst h1; exact h2'
+    · rw [h3 (by omega)] at hdesc; cases hdesc
 
 /-! ## the streams -/
 
@@ -493,42 +528,42 @@ theorem encode_decode_4streams_treeless (fseEnc : List Nat → Except Fault (Lis
 
 /-- **The compressor's path, end to end, with the real FSE coder**: histogram → table → description
 (direct or FSE-compressed) → four streams → `decode_literals`.  For every literal string of 6 … 128 KiB
-bytes with at least two distinct values: unless `write_table` hits its `assert!(encoded_len < 128)`
-(see `fse_weights_lt_128_full`), nothing panics and the literals come back. -/
+bytes with at least two distinct values nothing panics — in particular not the
+`assert!(encoded_len < 128)` of `write_table` (`write_table_total_on_compressor_tables`) — and the
+literals come back. -/
 theorem literals_roundtrip_compressor (counts : List Nat) (hlen : counts.length ≤ 256)
     (hn : 2 ≤ counts.length - ((rankOrder counts).filter (·.2)).length)
     (hlast : ∀ c, counts.getLast? = some c → c ≠ 0)
     (data : List Nat) (hd : ∀ s ∈ data, ∃ h : s < counts.length, counts[s] ≠ 0)
     (h6 : 6 ≤ data.length) (hmax : data.length ≤ 131072) :
-    ∃ t, buildFromCounts counts = .ok t ∧
-      ((∃ bytes, encode4x Model.Enc.fseWeights t data true = .ok bytes ∧
-          ∀ (st : DecTable) (tail target : List Nat), ∃ st',
-            decodeLiterals (litSection .compressed (target.length + data.length) bytes.length 4) st (bytes ++ tail) target
-              = (st', .ok (target ++ data, bytes.length))) ∨
-        writeTable Model.Enc.fseWeights t = .error (.assert "huff0_encoder.rs:write_table:encoded_len<128")) := by
+    ∃ t bytes, buildFromCounts counts = .ok t ∧ encode4x Model.Enc.fseWeights t data true = .ok bytes ∧
+      ∀ (st : DecTable) (tail target : List Nat), ∃ st',
+        decodeLiterals (litSection .compressed (target.length + data.length) bytes.length 4) st (bytes ++ tail) target
+          = (st', .ok (target ++ data, bytes.length)) := by
   obtain ⟨t, wd, m, hb, c, hwdlen, hused⟩ := compressor_table_canon counts hlen hn hlast
-  refine ⟨t, hb, ?_⟩
-  have henc : Encodable wd data := by
+  obtain ⟨t', wd', m', desc, hb', c', hdesc, hr⟩ := write_table_total_and_read_back counts hlen hn hlast
+  rw [hb] at hb'
+  simp only [Except.ok.injEq] at hb'
+  subst hb'
+  -- the two weight vectors build the same table; use the one that comes with the description
+  have henc : Encodable wd' data := by
     intro s hsd
     obtain ⟨hsc, hne⟩ := hd s hsd
-    exact hused s hsc hne
-  rcases fse_weights_lt_128_canon_partial c with ⟨desc, hdesc⟩ | ⟨bytes, _, _, hass⟩
-  · left
-    have hr : DescReads desc wd.dropLast := by
-      by_cases hform : wd.length - 1 ≤ 16
-      · obtain ⟨desc', h1, h2⟩ := descReads_direct Model.Enc.fseWeights c hform
-        rw [hdesc] at h1; simp only [Except.ok.injEq] at h1; subst h1; exact h2
-      · obtain ⟨bytes, _, h2, h3⟩ := descReads_fse c (by omega)
-        by_cases hs : bytes.length < 128
-        · obtain ⟨h1, h2'⟩ := h2 hs
-          rw [hdesc] at h1; simp only [Except.ok.injEq] at h1; subst h1; exact h2'
-        · rw [h3 (by omega)] at hdesc; cases hdesc
-    obtain ⟨bytes, q1, q2⟩ := roundtrip_4streams Model.Enc.fseWeights c data henc (by omega) (by omega) hmax desc hdesc hr
-    refine ⟨bytes, q1, ?_⟩
-    intro st tail target
-    obtain ⟨st', q, _⟩ := q2 st tail target
-    exact ⟨st', q⟩
-  · exact Or.inr hass
+    obtain ⟨hs1, hpos1⟩ := hused s hsc hne
+    -- `t.codes[s]` has a non-zero length, so `wd'[s]` is not zero either
+    obtain ⟨cd, q1, _⟩ := c.codesOk.used s hs1 hpos1
+    have hwm : wd[s] ≤ m := c.le _ (List.getElem_mem _)
+    obtain ⟨hs2, q2⟩ := c'.code s _ q1
+    refine ⟨hs2, ?_⟩
+    simp only at q2
+    by_cases h0 : wd'[s] = 0
+    · rw [if_pos h0] at q2; omega
+    · omega
+  obtain ⟨bytes, q1, q2⟩ := roundtrip_4streams Model.Enc.fseWeights c' data henc (by omega) (by omega) hmax desc hdesc hr
+  refine ⟨t, bytes, hb, q1, ?_⟩
+  intro st tail target
+  obtain ⟨st', q, _⟩ := q2 st tail target
+  exact ⟨st', q⟩
 
 /-- The 4-stream splitter: `encode4x` panics for fewer than 4 literals (the `assert!`) and for
 exactly 5 (`&data[split*2..split*3]` with `split = 2`), and for no other length because of the
@@ -572,13 +607,13 @@ example : buildFromCounts [0, 0, 0, 0, 0, 0, 0, 2000]
 example : (Spec.Huffman.tableOfWeights [2, 1, 0, 3]).isSome = true := by decide
 
 /-- non-vacuity of the whole chain (`compressor_table_canon`, `CanonTable`, `Encodable`, `DescReads`,
-the stream theorems): the histogram and the literals of the unit test `from_data` -/
-example : ∃ t, buildFromCounts [3, 0, 4, 1, 5] = .ok t ∧
-    ((∃ bytes, encode4x Model.Enc.fseWeights t [0, 2, 4, 4, 0, 3, 2, 2, 0, 2] true = .ok bytes ∧
-        ∀ (st : DecTable) (tail target : List Nat), ∃ st',
-          decodeLiterals (litSection .compressed (target.length + 10) bytes.length 4) st (bytes ++ tail) target
-            = (st', .ok (target ++ [0, 2, 4, 4, 0, 3, 2, 2, 0, 2], bytes.length))) ∨
-      writeTable Model.Enc.fseWeights t = .error (.assert "huff0_encoder.rs:write_table:encoded_len<128")) :=
+the stream theorems, totality of `write_table`): the histogram and the literals of the unit test
+`from_data` -/
+example : ∃ t bytes, buildFromCounts [3, 0, 4, 1, 5] = .ok t ∧
+    encode4x Model.Enc.fseWeights t [0, 2, 4, 4, 0, 3, 2, 2, 0, 2] true = .ok bytes ∧
+      ∀ (st : DecTable) (tail target : List Nat), ∃ st',
+        decodeLiterals (litSection .compressed (target.length + 10) bytes.length 4) st (bytes ++ tail) target
+          = (st', .ok (target ++ [0, 2, 4, 4, 0, 3, 2, 2, 0, 2], bytes.length)) :=
   literals_roundtrip_compressor [3, 0, 4, 1, 5] (by decide) (by decide) (by decide)
     [0, 2, 4, 4, 0, 3, 2, 2, 0, 2] (by decide) (by decide) (by decide)
 
